@@ -225,6 +225,19 @@ func (v *Vue) evalPipe(ctx VueContext, expr pipeExpr) (any, error) {
 	var ok bool
 	val, ok = ctx.stack.Resolve(expr.initial)
 	if !ok {
+		// the head of a pipe may also be a literal or a function call
+		if lit, isLit := parseLiteral(expr.initial); isLit {
+			val, ok = lit, true
+		} else if head := classifySegment(expr.initial); head.typ == segmentFilter && strings.HasSuffix(expr.initial, ")") {
+			var err error
+			val, err = v.evalSegment(ctx, head, nil, true, false)
+			if err != nil {
+				return nil, err
+			}
+			ok = true
+		}
+	}
+	if !ok {
 		if len(expr.segments) > 0 {
 			val = nil // Pass nil to first segment filter
 		} else {
@@ -298,27 +311,9 @@ func (v *Vue) evalFilter(ctx VueContext, seg pipeSegment, input any, isFirst, fr
 func (v *Vue) resolveArgument(ctx VueContext, arg string) any {
 	arg = strings.TrimSpace(arg)
 
-	// Check if it's a quoted string literal
-	if len(arg) >= 2 {
-		if (arg[0] == '"' && arg[len(arg)-1] == '"') ||
-			(arg[0] == '\'' && arg[len(arg)-1] == '\'') {
-			return arg[1 : len(arg)-1]
-		}
-	}
-
-	// Try to parse as integer
-	if i, err := strconv.Atoi(arg); err == nil {
-		return i
-	}
-
-	// Try to parse as float
-	if f, err := strconv.ParseFloat(arg, 64); err == nil {
-		return f
-	}
-
-	// Try to parse as bool
-	if b, err := strconv.ParseBool(arg); err == nil {
-		return b
+	// A literal: quoted string, number, true / false
+	if lit, ok := parseLiteral(arg); ok {
+		return lit
 	}
 
 	// Try to resolve as variable
@@ -328,6 +323,34 @@ func (v *Vue) resolveArgument(ctx VueContext, arg string) any {
 
 	// Return as-is (literal string)
 	return arg
+}
+
+// parseLiteral recognises a quoted string, an integer, a decimal number and true / false.
+// Anything else is a name: identifiers that merely look like a number or a boolean to strconv
+// (t, f, T, F, inf, nan) are variables.
+func parseLiteral(arg string) (any, bool) {
+	if len(arg) >= 2 {
+		if (arg[0] == '"' && arg[len(arg)-1] == '"') ||
+			(arg[0] == '\'' && arg[len(arg)-1] == '\'') {
+			return arg[1 : len(arg)-1], true
+		}
+	}
+	if i, err := strconv.Atoi(arg); err == nil {
+		return i, true
+	}
+	digits := strings.TrimLeft(arg, "+-")
+	if digits != "" && (digits[0] == '.' || (digits[0] >= '0' && digits[0] <= '9')) {
+		if f, err := strconv.ParseFloat(arg, 64); err == nil {
+			return f, true
+		}
+	}
+	switch arg {
+	case "true":
+		return true, true
+	case "false":
+		return false, true
+	}
+	return nil, false
 }
 
 // callFunc calls a function from the FuncMap with optional VueContext as first argument.
